@@ -223,10 +223,14 @@ def explore(tier, prop):
         res["inconclusive"].append("llsym and the native build disagree on %d of %d replayed paths, e.g. %s" % (
             mism, len(sample), [(bytes(r["input"]).decode("utf8", "replace"), r["code"], r.get("native")) for r in bad]))
     # ---- panics etc.: replay natively
-    bad_kinds = [r for r in all_recs if r["kind"] in ("panic", "memerr", "unreachable")]
-    nat = native.run_native(b["so"], [bytes(r["input"]) for r in bad_kinds[:200]])
+    # (a path over the step budget is a non-termination candidate: it becomes a `hang` only if the native run does not return either)
+    bad_kinds = [r for r in all_recs if r.get("input") is not None and
+                 (r["kind"] in ("panic", "memerr", "unreachable") or (r["kind"] == "inconclusive" and "step budget" in str(r.get("detail"))))]
+    nat = native.run_native(b["so"], [bytes(r["input"]) for r in bad_kinds[:200]], timeout_per_input=10.0, each=True)
     for r, nr in zip(bad_kinds, nat):
         r["native"] = nr
+        if r["kind"] == "inconclusive" and nr and nr.get("timeout"):
+            r["kind"] = "hang"
     res["replay_s"] = time.time() - t1
     for r in all_recs:
         if r["kind"] in ("unsupported", "inconclusive"):
